@@ -62,8 +62,6 @@ structure KillSt where
   lastYank : Option Text := none
   /-- how far yank-pop has rotated the ring (index into `ring`) -/
   rot : Nat := 0
-  /-- a kill was made while the ring was rotated (see `closeRun`) -/
-  killedRotated : Bool := false
 
 /-! ### C06, vi mode
 
@@ -87,19 +85,10 @@ deriving BEq
 
 structure ViW where
   top : ViTop := .known none
-  /-- only for naming a failure: what `top` is if spans with the cursor inside are appended as one block -/
-  alt : Option Text := none
-  /-- only for naming a failure: the run that produced `top` started directly after a `y` group -/
-  copy : Bool := false
   /-- the kill run in progress: line before its first kill -/
   run : Option Text := none
-  runAlt : Text := []
-  runRange : Bool := false
-  runCopy : Bool := false
   /-- the last action may be a kill whose slot is not followed: a kill now extends something unknown -/
   stale : Bool := false
-  /-- nothing but kills since a `y` group -/
-  afterCopy : Bool := false
 deriving BEq
 
 inductive ViKey
@@ -160,14 +149,6 @@ def viRemoved (cb : Obs) (nl : Text) (np : Option Nat) : Option (Text × SpanKin
       else if q < cb.pos && cb.pos < q + blen x then some (x, .range)
       else none
 
-/-- the span `x` removed at offset `q` of `l` consists of whole lines (`dd`, `cc`, `S`, `dj`, `dk`) -/
-def lineAligned (l : Text) (q : Nat) (x : Text) : Bool :=
-  match splitAtByte l q, splitAtByte l (q + blen x) with
-  | some (a, _), some (_, b) =>
-    (a.isEmpty || a.getLast? == some '\n' || x.head? == some '\n')
-      && (b.isEmpty || b.head? == some '\n' || x.getLast? == some '\n')
-  | _, _ => false
-
 namespace ViW
 
 /-- the run ends at callback `cb` (its line is the text after the last kill, the cursor where the text went) -/
@@ -175,39 +156,35 @@ def close (w : ViW) (cb : Obs) : ViW :=
   match w.run with
   | none => w
   | some l0 =>
-    let w' := { w with run := none, runAlt := [], runRange := false, runCopy := false }
+    let w' := { w with run := none }
     if l0 == cb.line then w'
     else
       match removedAt l0 cb.line cb.pos with
-      | some x => { w' with top := .known (some x), copy := w.runCopy,
-                            alt := if w.runRange && w.runAlt != x then some w.runAlt else none }
-      | none => { w' with top := .unknown, alt := none, copy := false }
+      | some x => { w' with top := .known (some x) }
+      | none => { w' with top := .unknown }
 
 /-- a command that is certainly not a kill -/
-def reset (w : ViW) (cb : Obs) : ViW := { w.close cb with stale := false, afterCopy := false }
+def reset (w : ViW) (cb : Obs) : ViW := { w.close cb with stale := false }
 
-def kill (w : ViW) (cb : Obs) (x : Text) (kind : SpanKind) (q : Nat) : ViW :=
-  if w.stale then { w with top := .unknown, alt := none, copy := false }
+def kill (w : ViW) (cb : Obs) : ViW :=
+  if w.stale then { w with top := .unknown }
   else
-    -- only for naming a failure: a whole-line span with text before the cursor, appended as one block
-    let block := kind != .forward && lineAligned cb.line q x
     match w.run with
-    | none => { w with run := some cb.line, runAlt := x, runRange := block, runCopy := w.afterCopy }
-    | some _ => { w with runAlt := (if kind == .backward && !block then x ++ w.runAlt else w.runAlt ++ x),
-                         runRange := w.runRange || block }
+    | none => { w with run := some cb.line }
+    | some _ => w
 
 /-- a kill command that removed nothing: transparent, or (the code reports the empty text to the ring,
     e.g. `dTx` with the target next to the cursor) a kill of "" -/
 def emptyKill (w : ViW) : ViW :=
-  if w.stale || w.run.isSome then w else { w with top := .known (some []), alt := none, copy := false }
+  if w.stale || w.run.isSome then w else { w with top := .known (some []) }
 
 def neutral (w : ViW) (cb : Obs) : ViW :=
-  if w.run.isSome then { w.close cb with top := .unknown, alt := none, copy := false, stale := true } else w
+  if w.run.isSome then { w.close cb with top := .unknown, stale := true } else w
 
 def copied (w : ViW) (cb : Obs) : ViW :=
   let w' := w.reset cb
   let prev : Option (Option Text) := match w'.top with | .known v => some v | _ => none
-  { w' with top := .copied cb.line prev, alt := none, copy := false, afterCopy := true }
+  { w' with top := .copied cb.line prev }
 
 def unknown : ViW := { top := .unknown, stale := true }
 
@@ -226,18 +203,10 @@ def boundariesAfter (l : Text) (p : Nat) : List Nat :=
 def putOffsets (after : Bool) (cb : Obs) : List Nat :=
   if !after || cb.pos ≥ blen cb.line then [cb.pos] else boundariesAfter cb.line cb.pos
 
-def commonPrefixLen : Text → Text → Nat
-  | a :: as, b :: bs => if a == b then commonPrefixLen as bs + 1 else 0
-  | _, _ => 0
-
 def isInfixOfText (y : Text) : Text → Bool
   | [] => y.isEmpty
   | c :: t => y.isPrefixOf (c :: t) || isInfixOfText y t
 
-/-- `y = u ++ t ++ v` with `u ++ v = x` and `t` not empty -/
-def joinedAround (y x : Text) : Bool :=
-  let lp := commonPrefixLen y x
-  y.length > x.length && y.drop (y.length - (x.length - lp)) == x.drop lp
 
 /-- `y` is `n` copies of the answer -/
 def unrep (n : Nat) (y : Text) : Option Text :=
@@ -260,7 +229,7 @@ def oracleC06Vi (o : ImplObs) : OVerdict :=
           match viRemoved cb nl np with
           | none => go (k + 1) [ViW.unknown] rest
           | some (x, kind) =>
-            let killed := ws.map (·.kill cb x kind (np.getD 0))
+            let killed := ws.map (·.kill cb)
             -- a character motion has the cursor at one end of what it removes
             let deleted := if kind == .range then [] else ws.map (·.reset cb)
             go (k + 1) (viCap (killed ++ deleted)) rest
@@ -269,7 +238,7 @@ def oracleC06Vi (o : ImplObs) : OVerdict :=
         else
           match viRemoved cb nl np with
           | none => go (k + 1) [ViW.unknown] rest
-          | some (x, kind) => go (k + 1) (viCap (ws.map (·.kill cb x kind (np.getD 0)))) rest
+          | some _ => go (k + 1) (viCap (ws.map (·.kill cb))) rest
       | .charDelete | .other => go (k + 1) (viCap (ws.map (·.reset cb))) rest
       | .neutral => go (k + 1) (viCap (ws.map (·.neutral cb))) rest
       | .repeat_ => go (k + 1) [ViW.unknown] rest
@@ -282,7 +251,7 @@ def oracleC06Vi (o : ImplObs) : OVerdict :=
 where
   put (k : Nat) (ws : List ViW) (cb : Obs) (nl : Text) (after : Bool) (cont : List ViW → OVerdict) : OVerdict :=
     let ws1 := ws.map (·.close cb)
-    let settle (w : ViW) : ViW := { w with stale := false, afterCopy := false }
+    let settle (w : ViW) : ViW := { w with stale := false }
     if cb.n > 1000 || ws1.any (·.top == .unknown) then cont (viCap (ws1.map settle))
     else
       let qs := putOffsets after cb
@@ -305,12 +274,7 @@ where
         match ws1.head? with
         | some h =>
           match h.top with
-          | .known (some x) =>
-            if h.copy && ys.any (fun y => joinedAround y x) then
-              some s!"C06:kill-directly-after-vi-yank-to-was-joined-to-the-copied-text(cb {k})"
-            else if (h.alt.map (fun a => ys.contains a)).getD false then
-              some s!"C06:whole-line-kill-joined-as-one-block-broke-the-left-to-right-order(cb {k})"
-            else some s!"C06:vi-put-did-not-reinsert-exactly-the-killed-text(cb {k})"
+          | .known (some _) => some s!"C06:vi-put-did-not-reinsert-exactly-the-killed-text(cb {k})"
           | _ => some s!"C06:vi-put-with-nothing-killed-changed-the-text(cb {k})"
         | none => none
 
@@ -351,8 +315,7 @@ def oracleC06 (o : ImplObs) : OVerdict :=
             | none => go (k + 1) { st with fresh := true, lastYank := none } rest
             | some exp =>
               if nl != exp then
-                some (if st.killedRotated then s!"C06:kill-after-yank-pop-replaced-a-more-recent-kill(cb {k})"
-                      else s!"C06:yank-did-not-reinsert-exactly-the-killed-text(cb {k})")
+                some s!"C06:yank-did-not-reinsert-exactly-the-killed-text(cb {k})"
               else match np with
                 | some q =>
                   if q != cb.pos + blen x then some s!"C06:cursor-not-after-the-yanked-text(cb {k})"
@@ -379,8 +342,7 @@ def oracleC06 (o : ImplObs) : OVerdict :=
                 match splitAtByte cb.line (cb.pos - blen prev), splitAtByte cb.line cb.pos with
                 | some (a, _), some (_, b) =>
                   if nl != a ++ x ++ b then
-                    some (if st.killedRotated then s!"C06:kill-after-yank-pop-replaced-a-more-recent-kill(cb {k})"
-                          else s!"C06:yank-pop-did-not-replace-the-yanked-text-by-the-previous-kill(cb {k})")
+                    some s!"C06:yank-pop-did-not-replace-the-yanked-text-by-the-previous-kill(cb {k})"
                   else go (k + 1) { st with fresh := true, lastYank := some x, rot := idx } rest
                 | _, _ => go (k + 1) { st with ring := none, lastYank := none } rest
         | _, _ =>
@@ -412,10 +374,8 @@ where
       else
         match removedAt l0 cb.line cb.pos, st.ring with
         | some x, some ring =>
-          -- a new kill becomes the most recent one; if the ring had been rotated by yank-pop the
-          -- code stores it in the slot after the rotated position, replacing a more recent kill
-          { st with runStart := none, ring := some ((x :: ring).take 60), rot := 0,
-                    killedRotated := st.killedRotated || st.rot != 0 }
+          -- a new kill becomes the most recent one and ends the rotation of yank-pop
+          { st with runStart := none, ring := some ((x :: ring).take 60), rot := 0 }
         | _, _ => { st with runStart := none, ring := none }
 
 /-! ### C05 -/
@@ -468,11 +428,6 @@ structure UndoVi where
   /-- 0: main loop, 1: incremental search, 2: completion -/
   sub : Nat := 0
   prevIns : Bool := true
-  /-- only for naming a failure (D38): inside the current session an Undo found nothing left of the session -/
-  beginPopped : Bool := false
-  strayEnd : Bool := false
-  /-- only for naming a failure (D39): `.` was used in command mode -/
-  dotSeen : Bool := false
 
 namespace UndoVi
 
@@ -486,7 +441,7 @@ def lose (st : UndoVi) : UndoVi := { st with hist := [], sess := st.sess.map (fu
 
 /-- leaving insert mode: the session becomes one edit -/
 def closeSession (st : UndoVi) : UndoVi :=
-  let st' := { st with sess := none, beginPopped := false, strayEnd := st.strayEnd || st.beginPopped }
+  let st' := { st with sess := none }
   match st.sess with
   | none => st
   | some none => { st' with hist := st.hist.map (fun (t, _) => (t, false)) }
@@ -510,13 +465,12 @@ def landOn (st : UndoVi) (nl : Text) (m : Nat) : UndoVi :=
   | some a, some b =>
     let h := st.hist.drop a
     let h := (h.zipIdx).map (fun ((t, f), i) => (t, f && i ≥ b - a))
+    -- landing below the start of the open session: its group marker is gone, what is typed from now
+    -- on is judged key by key (it may merge into an older insertion: D22)
     let sess := match st.sess with
-      | some (some d) => some (some (min d h.length))
+      | some (some d) => if h.length < d then none else some (some d)
       | other => other
-    let popped := match st.sess with
-      | some (some d) => h.length < d
-      | _ => false
-    { st with hist := h, sess, beginPopped := st.beginPopped || popped }
+    { st with hist := h, sess }
   | _, _ => st.lose
 
 end UndoVi
@@ -557,26 +511,23 @@ def oracleC05Vi (hasCompleter : Bool) (histNonEmpty : Bool) (o : ImplObs) : OVer
           let sessStart : Option (Nat × Text) := match st.sess with
             | some (some d) => if d ≤ st.hist.length then (st.hist[st.hist.length - d]?).map (fun e => (st.hist.length - d + 1, e.1)) else none
             | _ => none
-          let region : Option (List Text × Nat) := (allowedOf st.hist).map (fun a =>
+          -- (a session whose start the log has lost: the session so far is not known, no judgement)
+          let region : Option (List Text × Nat) := (if st.sess == some none then none else allowedOf st.hist).map (fun a =>
             match sessStart with
             | some (m, t) => (t :: a, max a.length m)
             | none => (a, a.length))
           if nl == cb.line then
             -- nothing left to undo, nothing left of the open session, or a unit whose net effect is nil:
             -- the log may be anywhere down to the oldest admissible occurrence of this text
+            -- (inside an open session: the session's group marker is consumed, the session is no group any more)
             let st := st.landOn nl (if cb.n > 1 then st.hist.length else (region.map (·.2)).getD st.hist.length)
-            go (k + 1) { st with beginPopped := st.beginPopped || st.sess.isSome } rest
+            go (k + 1) { st with sess := none } rest
           else if cb.n > 1 then go (k + 1) (st.landOn nl st.hist.length) rest
           else
             match region with
             | some (allowed, m) =>
               if !allowed.contains nl then
-                -- (the unmatched End marker is pushed when the session is left, or by a grouped command inside it)
-                if st.strayEnd || st.beginPopped then
-                  some s!"C05:undo-ran-past-the-last-word-sized-edit-after-an-undo-had-emptied-an-open-insert-session(cb {k})"
-                else if st.dotSeen then
-                  some s!"C05:undo-ran-past-the-last-word-sized-edit-after-a-repeated-change-command(cb {k})"
-                else some s!"C05:undo-jumped-past-the-state-before-the-last-word-sized-edit(cb {k})"
+                some s!"C05:undo-jumped-past-the-state-before-the-last-word-sized-edit(cb {k})"
               else go (k + 1) (st.landOn nl m) rest
             | none => go (k + 1) (st.landOn nl st.hist.length) rest
         else if key == ⟨.char 'R', 8⟩ && histNonEmpty then go (k + 1) { st.lose with sub := 1 } rest
@@ -589,7 +540,6 @@ def oracleC05Vi (hasCompleter : Bool) (histNonEmpty : Bool) (o : ImplObs) : OVer
               || key == ⟨.char 'R', 8⟩ || key == ⟨.char 'S', 8⟩
               || (cb.mode == "vc" && (key == ⟨.char 'j', 0⟩ || key == ⟨.char 'k', 0⟩ || key == ⟨.char '+', 0⟩
                     || key == ⟨.char '-', 0⟩ || key == ⟨.char '<', 0⟩ || key == ⟨.char '>', 0⟩))
-          let st := if cb.mode == "vc" && key == ⟨.char '.', 0⟩ then { st with dotSeen := true } else st
           if modeSwitch then go (k + 1) st.lose rest
           else if nl == cb.line then go (k + 1) st rest
           else if isOpaque then go (k + 1) st.lose rest
